@@ -185,6 +185,7 @@ package xmss
 //@   assigns pk, *addr
 //@   after misc.ToByteLittleEndian 1 assert[XF] forall d_ :: 0 <= d_ && d_ < wBytes(wotsParams) ==> cSumBytes[d_] == spec.toByteN(wCsum(msg, wotsParams), wBytes(wotsParams))[d_]
 //@   after xmss.CalcBaseW 2 assert[XF] forall k_ :: 0 <= k_ && k_ < XMSSWOTSLEN2 ==> cSumBaseW[k_] == spec.bwdig(spec.toByteN(wCsum(msg, wotsParams), wBytes(wotsParams)), 0, k_, XMSSWOTSLOGW)
+//@   after xmss.CalcBaseW 2 assert[XF] forall k_ :: 0 <= k_ && k_ < XMSSWOTSLEN2 ==> cSumBaseW[k_] == wDigit(msg, wotsParams, XMSSWOTSLEN1 + k_)
 //@   loop 1 invariant 0 <= i && i <= XMSSWOTSLEN1
 //@   loop 1 invariant[XF] cSum == spec.wsum(msg, i, XMSSWOTSLOGW, XMSSWOTSW) && cSum <= i * (XMSSWOTSW - 1)
 //@   loop 2 invariant 0 <= i && i <= XMSSWOTSLEN2
@@ -431,6 +432,7 @@ package xmss
 //@   assigns sig, *addr
 //@   after misc.ToByteLittleEndian 1 assert[XF] forall d_ :: 0 <= d_ && d_ < wBytes(params) ==> cSumBytes[d_] == spec.toByteN(wCsum(msg, params), wBytes(params))[d_]
 //@   after xmss.CalcBaseW 2 assert[XF] forall k_ :: 0 <= k_ && k_ < params.len2 ==> cSumBaseW[k_] == spec.bwdig(spec.toByteN(wCsum(msg, params), wBytes(params)), 0, k_, params.logW)
+//@   after xmss.CalcBaseW 2 assert[XF] forall k_ :: 0 <= k_ && k_ < params.len2 ==> cSumBaseW[k_] == wDigit(msg, params, params.len1 + k_)
 //@   after xmss.expandSeed 1 assert[XF] hashFunction <= 2 ==> forall i_, q_ :: 0 <= i_ && i_ < params.len && 0 <= q_ && q_ < 32 ==> sig[32*i_+q_] == spec.prfArr(hashFunction, spec.sub(sk, 32), spec.toByte32(i_))[q_]
 //@   loop 1 invariant 0 <= i && i <= params.len1
 //@   loop 1 invariant[XF] csum == spec.wsum(msg, i, params.logW, params.w) && csum <= i * (params.w - 1)
